@@ -236,6 +236,7 @@ class World:
         self._cur_restore = None
         self.observe = True
         self.pending_deletes = set()
+        self.left_behind = set()
         self.hooks = hooks
 
     # -- patching -----------------------------------------------------------
@@ -420,7 +421,8 @@ class World:
         snaps = [r[3] for r in rec] + [dict(b.d)]
         pub = {'kind': kind, 'writes': [(r[0], r[1], r[2]) for r in rec], 'snaps': snaps,
                'store0': before, 'sched': self.last_sched, 'exc': exc, 'clk': b.clk, 'now': self.now,
-               'order': self.order, 'servers': set(self.m.servers) if self.m is not None else set()}
+               'order': self.order, 'servers': set(self.m.servers) if self.m is not None else set(),
+               'left_behind': set(self.left_behind)}
         self.pubs.append(pub)
         if exc is not None:
             raise exc
@@ -793,11 +795,11 @@ def check_cut(world, pub, k, memo):
     for a, ss in sorted(doubles(entries).items()):
         if a in pre:
             continue            # already doubled before the publication started: not produced by the crash
-        stale = [s for s in ss if s not in pub['servers']]
+        stale = [s for s in ss if s not in pub['servers'] or (s, a) in pub.get('left_behind', ())]
         if stale:
             hits.append(('stale-entry-after-server-record-deleted',
-                         'crash before write %d of %s: %s has entries under %s; %s is not a server of the model'
-                         % (k, kind, a, ss, stale)))
+                         'crash before write %d of %s: %s has entries under %s; the one under %s was left behind when '
+                         'the server record was deleted' % (k, kind, a, ss, stale)))
         else:
             hits.append(('double-entry-at-crash-in-%s' % kind,
                          'crash before write %d of %s: %s has entries under %s' % (k, kind, a, ss)))
@@ -878,6 +880,7 @@ def run_history(case, crash_points=True, want=('c09', 'c10', 'c11'), inject=None
                     race = bool(w.pending_deletes)
                     stats['race_cycles'] += int(race)
                     w.apply_renew_requests()
+                    w.left_behind = {(k[1], k[2]) for k in taint if k[0] == 'entry'}
                     pub = w._record_pub('reschedule', w.m.reschedule)
                     pub['race'] = race
                     ent = placement_entries(w.b.d)
@@ -969,6 +972,7 @@ def _dedupe(hs):
 def _do_restart(w, hits, stats, taint=None):
     stats['restarts'] += 1
     race = bool(w.pending_deletes)
+    w.left_behind = {(k[1], k[2]) for k in (taint or {}) if k[0] == 'entry'}
     c11, pub = w.restart()
     pub['race'] = race
     stats['c11_entries'] += len(placement_entries(c11['store']))
